@@ -1149,6 +1149,9 @@ def rule_own(ctx, M, only=None):
 
 def rule_util(ctx, M):
     """The utils wrappers act on the index they are given."""
+    if M.config != "core":
+        from . import joinlike as _jl
+        _jl.rule_vec_assume_init(ctx, M, "C02.UTIL")
     checks = [
         ("futures::array::FutureArray", "drop", ("ManuallyDrop", "drop")),
         ("output::array::OutputArray", "drop", ("MaybeUninit", "assume_init_drop")),
